@@ -151,32 +151,45 @@ func (n *ParallelNode) Run(ctx context.Context) error {
 		}
 
 		// try sending the job to a worker
-		select {
-		case workerJobs <- job:
-			// we submitted the job to a worker, give it to the coordinator as well
-			coordinatorJobs <- job
-		case workerErr := <-errs:
-			// A job failed while we were waiting for a free worker. The
-			// coordinator reports every failed job on errs and blocks once
-			// the channel is full; errs is otherwise only read between two
-			// messages (in trigger). Not reading it here left the node, the
-			// coordinator and the workers (which wait for the coordinator to
-			// collect their jobs) waiting for each other forever, with the
-			// pipeline stuck in the running state. Nack the message we are
-			// holding and stop, exactly as if trigger had returned the error.
-			if nackErr := msg.Nack(workerErr, n.ID()); nackErr != nil {
-				return nackErr
+		var workerErr error
+	dispatch:
+		for {
+			select {
+			case workerJobs <- job:
+				// we submitted the job to a worker, give it to the coordinator as well
+				coordinatorJobs <- job
+				break dispatch
+			case jobErr := <-errs:
+				// A job failed while we were waiting for a free worker. The
+				// coordinator reports every failed job on errs and blocks once
+				// the channel is full; errs is otherwise only read between two
+				// messages (in trigger). Not reading it here left the node, the
+				// coordinator and the workers (which wait for the coordinator to
+				// collect their jobs) waiting for each other forever, with the
+				// pipeline stuck in the running state. Keep the error and go on
+				// waiting: the message still goes to a worker that is (or
+				// becomes) free, as it always did, and if none is left
+				// workersDone fires. The error is returned right after that,
+				// exactly as if trigger had returned it.
+				workerErr = cerrors.LogOrReplace(workerErr, jobErr, func() {
+					n.logger.Warn(ctx).Err(jobErr).Msg("parallel worker node failed")
+				})
+			case <-workersDone:
+				// no worker is running anymore, they must have all failed, nack the
+				// message and stop running
+				noWorkerRunningErr := cerrors.New("no worker is running")
+				err = msg.Nack(noWorkerRunningErr, n.ID())
+				if err != nil {
+					return err
+				}
+				if workerErr != nil {
+					return workerErr
+				}
+				return noWorkerRunningErr
 			}
+		}
+		if workerErr != nil {
 			return workerErr
-		case <-workersDone:
-			// no worker is running anymore, they must have all failed, nack the
-			// message and stop running
-			noWorkerRunningErr := cerrors.New("no worker is running")
-			err = msg.Nack(noWorkerRunningErr, n.ID())
-			if err != nil {
-				return err
-			}
-			return noWorkerRunningErr
 		}
 	}
 }
